@@ -2,8 +2,8 @@ package props
 
 import (
 	"context"
-	"errors"
 	"encoding/json"
+	"errors"
 	"fmt"
 	"os"
 	"regexp"
